@@ -108,6 +108,95 @@ theorem C06_total (p : Policy) (mf : Nat) (n0 : Int) (h : List (List Val × List
   · exact Or.inr hr
   · omega
 
+/-- **C06 (`ExhaustedFailures` is unreachable from a search).**  With `n_initial_points ≥ 1`
+(a `CBO` with `n_initial_points = 0` and no checkpoint cannot even ask its first point) no
+history whatsoever — in particular `max_failures` or more consecutive failures, with or without
+earlier successes — makes the tell pipeline raise `ExhaustedFailures`: a fit needs
+`_n_initial_points ≤ 0`, i.e. at least one non-failed result, and then `_filter_failures` has
+something to impute from.  (The real `search()` does not catch `ExhaustedFailures`; it never
+has to: after `max_failures` failures it simply keeps sampling at random — observed, see notes.) -/
+theorem C06_never_exhausted (p : Policy) (mf : Nat) (n0 : Int) (hn0 : 1 ≤ n0)
+    (h : List (List Val × List Rat)) :
+    runTells p mf ⟨n0, []⟩ h ≠ .error (.inr .exhausted) :=
+  runTells_not_exhausted p mf n0 hn0 h ⟨n0, []⟩ (by simp [NInitInv, countOk])
+
+/-- **C06 (totality, any length).**  Hence for `n_initial_points ≥ 1` the length restriction of
+`C06_total` is not needed: every history of supported objectives, of any length and for any
+`max_failures`, runs to the end. -/
+theorem C06_total_any_length (p : Policy) (mf : Nat) (n0 : Int) (hn0 : 1 ≤ n0)
+    (h : List (List Val × List Rat)) (hraw : ∀ b ∈ h, ∀ o ∈ b.1, RawOK o) :
+    (∃ r, runTells p mf ⟨n0, []⟩ (afterDone h) = .ok r) ∨
+    runTells p mf ⟨n0, []⟩ (afterDone h) = .error (.inr .envContract) := by
+  have hwf : ∀ b ∈ afterDone h, ∀ o ∈ b.1, WFObj o := by
+    intro b hb o ho
+    simp only [afterDone, List.mem_map] at hb
+    obtain ⟨b0, hb0, rfl⟩ := hb
+    simp only [List.mem_map] at ho
+    obtain ⟨o0, ho0, rfl⟩ := ho
+    exact onDone_WF o0 (hraw b0 hb0 o0 ho0)
+  rcases C06_surrogate_input p mf n0 h with hr | ⟨e, hr⟩ | hr | ⟨hr, _⟩
+  · exact Or.inl hr
+  · exact absurd hr (runTells_no_tellErr p mf _ _ hwf e)
+  · exact Or.inr hr
+  · exact absurd hr (C06_never_exhausted p mf n0 hn0 _)
+
+/-- **C06 (exactly when `ExhaustedFailures` is raised).**  The complementary case, reachable
+only on an optimizer that fits from the start (`_n_initial_points ≤ 0`: `Optimizer.tell` used
+directly, or a checkpoint loaded with `fit_surrogate`): a first batch consisting of `k` failures
+with an imputing policy raises `ExhaustedFailures` iff `k ≥ max_failures`; below that the fit
+receives `k` zeros. -/
+theorem C06_exhausted_exact (p : Policy) (hp : p ≠ .ignore) (mf : Nat) (n0 : Int) (hn0 : n0 ≤ 0)
+    (o : Val) (r : List Val) (hfail : ∀ x ∈ o :: r, ∃ s, x = Val.str s ∧ firstIsF s = true) :
+    searchTell p mf ⟨n0, []⟩ (o :: r) [] =
+      if mf ≤ (o :: r).length then .error (.inr .exhausted)
+      else .ok (⟨n0, (o :: r).map (fun _ => Y.fail)⟩, some ((o :: r).map (fun _ => (0 : Rat)))) := by
+  have hc := cboTell_all_fail p hp (o :: r) hfail
+  have hc' : cboTell p (o :: r) = .ok (Y.fail :: r.map (fun _ => Y.fail)) := by simpa using hc
+  rw [searchTell_unfold p mf ⟨n0, []⟩ (o :: r) [] Y.fail (r.map (fun _ => Y.fail)) hc']
+  have hrep : (Y.fail :: r.map (fun _ => Y.fail)) = List.replicate (r.length + 1) Y.fail := by
+    simp [List.replicate_succ, List.map_const']
+  have hcount : countOk (Y.fail :: r.map (fun _ => Y.fail)) = 0 := by
+    rw [hrep]; simp [countOk, isOk]
+  simp only [hcount, List.nil_append]
+  have hle : n0 - ((0 : Nat) : Int) ≤ 0 := by omega
+  simp only [hle, if_true]
+  have hfin : (List.replicate (r.length + 1) Y.fail).all Y.isFinite = true := by simp [Y.isFinite]
+  have hfit : fitInput p mf (Y.fail :: r.map (fun _ => Y.fail)) [] =
+      if mf ≤ r.length + 1 then .error .exhausted
+      else .ok (List.replicate (r.length + 1) (0 : Rat)) := by
+    rw [hrep]
+    unfold fitInput
+    simp only [hfin, Bool.not_true, Bool.false_eq_true, if_false, mergeScaled_all_fail]
+    have hgood : (List.replicate (r.length + 1) (none : Option (List Rat))).filterMap id = [] := by simp
+    cases p with
+    | ignore => exact absurd rfl hp
+    | mean =>
+      simp only [filterFailures, hgood, List.isEmpty_nil, if_true, List.length_replicate]
+      by_cases hm : mf ≤ r.length + 1
+      · simp [hm]
+      · have : ¬ (r.length + 1 ≥ mf) := by omega
+        simp only [this, hm, if_false, List.map_replicate]
+        have : optMap scalarOf (List.replicate (r.length + 1) (some [(0 : Rat)])) = some (List.replicate (r.length + 1) 0) := by
+          induction r.length + 1 with
+          | zero => rfl
+          | succ n ih => simp [List.replicate_succ, optMap, scalarOf, ih]
+        simp [this]
+    | max =>
+      simp only [filterFailures, hgood, List.isEmpty_nil, if_true, List.length_replicate]
+      by_cases hm : mf ≤ r.length + 1
+      · simp [hm]
+      · have : ¬ (r.length + 1 ≥ mf) := by omega
+        simp only [this, hm, if_false, List.map_replicate]
+        have : optMap scalarOf (List.replicate (r.length + 1) (some [(0 : Rat)])) = some (List.replicate (r.length + 1) 0) := by
+          induction r.length + 1 with
+          | zero => rfl
+          | succ n ih => simp [List.replicate_succ, optMap, scalarOf, ih]
+        simp [this]
+  rw [hfit]
+  by_cases hm : mf ≤ r.length + 1
+  · simp [hm]
+  · simp [hm, List.replicate_succ, List.map_const']
+
 /-- **C06 (label non-interference).**  Two histories that differ only in the text after the
 leading `F` of failure labels produce the same optimizer state and the same fit inputs (hence the
 same proposals: the optimizer sees nothing else), for every policy. -/
